@@ -472,3 +472,63 @@ def run_markup(payload):
             o["raised"] = f"{type(ex).__name__}: {ex}"[:300]
         res.append(o)
     return res
+
+
+SC_WORDS = {"a": "Kappa", "b": "Lomax", "c": "Mirren", "d": "Noxon", "e": "Pruitt", "f": "Quill"}
+SC_RV = {"r1": ("F.2d", "12"), "r2": ("F.3d", "12"), "r3": ("U.S.", "410")}
+SC_CLS = {"full": "FullCaseCitation", "short": "ShortCaseCitation", "supra": "SupraCitation", "id": "IdCitation",
+          "section": "UnknownCitation"}
+
+
+def render_scenario(cases, items):
+    parts, spans = [], []
+    pos = 0
+    for k, it in enumerate(items):
+        if it["case"]:
+            c = cases[it["case"] - 1]
+            rep, vol = SC_RV[c["rv"]]
+            pl, df = SC_WORDS[sorted(c["pl"])[0]], SC_WORDS[sorted(c["df"])[0]]
+        if it["kind"] == "full":
+            s = f"{pl} v. {df}, {vol} {rep} {c['pg']} ({1950 + c['pg'] % 50})."
+        elif it["kind"] == "short":
+            s = f"{df}, {vol} {rep}, at {c['pg'] + 2}." if it["ante"] else f"See {vol} {rep}, at {c['pg'] + 2}."
+        elif it["kind"] == "supra":
+            s = f"{df}, supra, at {c['pg'] + 1}."
+        elif it["kind"] == "id":
+            # (a filler follows a bare "Id." so that two id. forms are never a single character apart)
+            s = "Id. So held." if it["pin"] == -1 else f"Id. at {it['pin']}."
+        else:
+            s = "See § 99."
+        if k % 3 == 2:
+            s += " The court agreed."
+        spans.append([pos, pos + len(s)])
+        parts.append(s)
+        pos += len(s) + 1
+    return " ".join(parts), spans
+
+
+def run_scenarios(payload):
+    from eyecite import get_citations, resolve_citations
+    from eyecite.models import ReferenceCitation
+    cases = payload["common"]["cases"]
+    res = []
+    for items in payload["items"]:
+        text, spans = render_scenario(cases, items)
+        o = {"text": text, "raised": "", "items": []}
+        try:
+            cs = get_citations(text)
+            r = resolve_citations(cs)
+            group = {}
+            for gi, (key, lst) in enumerate(r.items()):
+                for c in lst:
+                    group[id(c)] = gi + 1
+            for it, (a, b) in zip(items, spans):
+                mine = [c for c in cs if not isinstance(c, ReferenceCitation) and a <= c.span()[0] and c.span()[1] <= b]
+                good = len(mine) == 1 and type(mine[0]).__name__ == SC_CLS[it["kind"]]
+                o["items"].append({"kind": it["kind"], "case": it["case"], "unamb": it["unamb"], "out": it["out"],
+                                   "extracted": good, "group": group.get(id(mine[0]), 0) if good else 0})
+            o["ngroups"] = len(r)
+        except Exception as ex:  # noqa: BLE001
+            o["raised"] = f"{type(ex).__name__}: {ex}"[:300]
+        res.append(o)
+    return res
